@@ -53,9 +53,9 @@ Theorem C04_reject_unknown_operator : forall name q cl, name <> [] -> forallb na
 Proof. exact D17r.C04_reject_unknown_operator. Qed.
 Theorem C04_reject_unterminated_version : forall name q cl, name <> [] -> forallb namec name = true -> eqc (peek name) 36 = false ->
   (match q with None => True | Some a => forallb mac (arch_string a) = true /\ parse_arch (arch_string a) = a /\ arch_ok (arch_string a) = true end) ->
-  clauses_ok (base name q) cl -> cl <> [] -> forall w op rest, all_ws w -> p_ver (result name q cl) = None ->
-  In op ops -> opnext rest = true -> forallb numc rest = true ->
-  parse (name ++ qual_text q ++ clauses_text cl ++ w ++ ch 40 :: op ++ rest) = Err.
+  clauses_ok (base name q) cl -> cl <> [] -> forall w op rest x, all_ws w -> p_ver (result name q cl) = None ->
+  In op ops -> opnext (rest ++ x) = true -> forallb numc rest = true -> bad_in_number (peek x) = true ->
+  parse (name ++ qual_text q ++ clauses_text cl ++ w ++ ch 40 :: op ++ rest ++ x) = Err.
 Proof. exact D17r.C04_reject_unterminated_version. Qed.
 Print Assumptions C04_reject_unterminated_version.
 (* mixed negation inside one architecture list; a bracket that is never closed; a substvar that is never closed *)
@@ -70,13 +70,29 @@ Proof. exact D18r.C04_reject_mixed_negation. Qed.
 Theorem C04_reject_unterminated_bracket : forall name q cl, name <> [] -> forallb namec name = true -> eqc (peek name) 36 = false ->
   (match q with None => True | Some a => forallb mac (arch_string a) = true /\ parse_arch (arch_string a) = a /\ arch_ok (arch_string a) = true end) ->
   clauses_ok (base name q) cl -> cl <> [] -> p_archs (result name q cl) = Some {| a_not := false; a_list := [] |} ->
-  forall nt items w w0 tail, all_ws w -> all_ws w0 -> Forall (wf_archent nt) (map fst items) -> seps1 items ->
-  forallb archc tail = true ->
-  parse (name ++ qual_text q ++ clauses_text cl ++ w ++ ch 91 :: w0 ++ items_text nt items ++ tail) = Err.
+  forall nt items w w0 tail x, all_ws w -> all_ws w0 -> Forall (wf_archent nt) (map fst items) -> seps1 items ->
+  forallb archc tail = true -> bad_in_arch (peek x) = true ->
+  parse (name ++ qual_text q ++ clauses_text cl ++ w ++ ch 91 :: w0 ++ items_text nt items ++ tail ++ x) = Err.
 Proof. exact D18r.C04_reject_unterminated_bracket. Qed.
-Theorem C04_reject_unterminated_substvar : forall w nm, all_ws w -> forallb subc nm = true ->
-  parse (w ++ ch 36 :: ch 123 :: nm) = Err.
+Theorem C04_reject_unterminated_substvar : forall w nm x, all_ws w -> forallb subc nm = true -> bad_in_substvar (peek x) = true ->
+  parse (w ++ ch 36 :: ch 123 :: nm ++ x) = Err.
 Proof. exact D18r.C04_reject_unterminated_substvar. Qed.
+(* the r14 finding, now a theorem: a clause that is not closed does not swallow the separator behind it.  In the three
+   theorems above x is ANY text that starts with the end of the input (x = []), a NUL, ',' '|' or a further opening
+   character of the clause's own kind; before the repair "foo (>= 1.0, bar (>= 2.0)" read as ONE relation on foo with
+   the version "1.0, bar (>= 2.0" and the dependency on bar was lost. *)
+Theorem C04_bad_in_characters : forall c,
+  (bad_in_number c = eqc c 0 || eqc c 44 || eqc c 124 || eqc c 40) /\
+  (bad_in_arch c = eqc c 0 || eqc c 44 || eqc c 124 || eqc c 91) /\
+  (bad_in_stage c = eqc c 0 || eqc c 44 || eqc c 124 || eqc c 60) /\
+  (bad_in_substvar c = eqc c 0 || eqc c 44 || eqc c 124 || eqc c 36).
+Proof. intros c. repeat split. Qed.
+Example C04_clause_does_not_swallow_the_separator :
+  parse (s "foo (>= 1.0, bar (>= 2.0)") = Err /\ parse (s "foo (>= 1.0 | bar") = Err /\ parse (s "foo (>= 1.0 (>= 2)") = Err /\
+  parse (s "foo [amd64, bar [i386]") = Err /\ parse (s "foo [amd64 | bar") = Err /\
+  parse (s "foo <stage1, bar <cross>") = Err /\ parse (s "foo <!stage1 | bar") = Err /\
+  parse (s "${a, b}") = Err /\ parse (s "x, ${a | b}") = Err /\ parse (s "${a${b}") = Err.
+Proof. vm_compute. repeat split. Qed.
 Print Assumptions C04_reject_mixed_negation.
 Print Assumptions C04_reject_unterminated_substvar.
 
@@ -86,12 +102,14 @@ Theorem C04_local_second_version : forall f p w x v0, p_ver p = Some v0 -> all_w
 Proof. exact reject_second_version. Qed.
 Theorem C04_local_second_archs : forall f p w x, a_list (archs_of p) <> [] -> all_ws w -> controllers (S f) p (w ++ ch 91 :: x) = Err.
 Proof. exact reject_second_archs. Qed.
-Theorem C04_local_unterminated_paren : forall w num, forallb numc w = true -> number_loop num w = Err.
+Theorem C04_local_unterminated_paren : forall w num x, forallb numc w = true -> bad_in_number (peek x) = true -> number_loop num (w ++ x) = Err.
 Proof. exact reject_open_paren. Qed.
-Theorem C04_local_unterminated_substvar : forall w name, forallb subc w = true -> substvar_loop name w = Err.
+Theorem C04_local_unterminated_substvar : forall w name x, forallb subc w = true -> bad_in_substvar (peek x) = true -> substvar_loop name (w ++ x) = Err.
 Proof. exact reject_open_substvar. Qed.
-Theorem C04_local_unterminated_bracket : forall w name, forallb archc w = true -> arch_name_loop name w = Err.
+Theorem C04_local_unterminated_bracket : forall w name x, forallb archc w = true -> bad_in_arch (peek x) = true -> arch_name_loop name (w ++ x) = Err.
 Proof. exact reject_open_bracket. Qed.
+Theorem C04_local_unterminated_stage : forall w st x, forallb stagec w = true -> bad_in_stage (peek x) = true -> stage_loop st (w ++ x) = Err.
+Proof. exact reject_open_stage. Qed.
 Theorem C04_local_two_names : forall f p w c x, all_ws w -> is_ws c = false ->
   eqc c 44 || eqc c 124 || eqc c 0 = false -> eqc c 40 = false -> eqc c 91 = false -> eqc c 60 = false ->
   controllers (S f) p (w ++ c :: x) = Err.
@@ -151,9 +169,9 @@ Section Classes.
   Theorem C04_class_unknown_operator : forall w rest, all_ws w -> sep w -> p_ver (result name q cl) = None -> parse_operator rest = Err ->
     bad_alt (name ++ qual_text q ++ clauses_text cl ++ w ++ ch 40 :: rest).
   Proof. exact (bad_unknown_operator name q cl Hne Hc Hd Ha W). Qed.
-  Theorem C04_class_unterminated_version : forall w op rest, all_ws w -> sep w -> p_ver (result name q cl) = None ->
-    In op ops -> opnext rest = true -> forallb numc rest = true ->
-    bad_alt (name ++ qual_text q ++ clauses_text cl ++ w ++ ch 40 :: op ++ rest).
+  Theorem C04_class_unterminated_version : forall w op rest x, all_ws w -> sep w -> p_ver (result name q cl) = None ->
+    In op ops -> opnext (rest ++ x) = true -> forallb numc rest = true -> bad_in_number (peek x) = true ->
+    bad_alt (name ++ qual_text q ++ clauses_text cl ++ w ++ ch 40 :: op ++ rest ++ x).
   Proof. exact (bad_unterminated_version name q cl Hne Hc Hd Ha W). Qed.
   Hypothesis Hempty : p_archs (result name q cl) = Some {| a_not := false; a_list := [] |}.
   Theorem C04_class_mixed_negation : forall nt items w w0 T, all_ws w -> sep w -> all_ws w0 -> items <> [] ->
@@ -162,15 +180,15 @@ Section Classes.
     Bool.eqb nt (eqc (peek T) 33) = false ->
     bad_alt (name ++ qual_text q ++ clauses_text cl ++ w ++ ch 91 :: w0 ++ items_text nt items ++ T).
   Proof. exact (bad_mixed_negation name q cl Hne Hc Hd Ha W Hempty). Qed.
-  Theorem C04_class_unterminated_bracket : forall nt items w w0 tail, all_ws w -> sep w -> all_ws w0 ->
-    Forall (wf_archent nt) (map fst items) -> seps1 items -> forallb archc tail = true ->
-    bad_alt (name ++ qual_text q ++ clauses_text cl ++ w ++ ch 91 :: w0 ++ items_text nt items ++ tail).
+  Theorem C04_class_unterminated_bracket : forall nt items w w0 tail x, all_ws w -> sep w -> all_ws w0 ->
+    Forall (wf_archent nt) (map fst items) -> seps1 items -> forallb archc tail = true -> bad_in_arch (peek x) = true ->
+    bad_alt (name ++ qual_text q ++ clauses_text cl ++ w ++ ch 91 :: w0 ++ items_text nt items ++ tail ++ x).
   Proof. exact (bad_unterminated_bracket name q cl Hne Hc Hd Ha W Hempty). Qed.
 End Classes.
-Theorem C04_reject_unterminated_substvar_at_any_relation : forall nm, forallb subc nm = true ->
-  (forall w0, all_ws w0 -> parse (w0 ++ ch 36 :: ch 123 :: nm) = Err) /\
+Theorem C04_reject_unterminated_substvar_at_any_relation : forall nm x, forallb subc nm = true -> bad_in_substvar (peek x) = true ->
+  (forall w0, all_ws w0 -> parse (w0 ++ ch 36 :: ch 123 :: nm ++ x) = Err) /\
   (forall w0 r0 more w, all_ws w0 -> lrelR_ok r0 -> Forall (fun wr => all_ws (fst wr) /\ lrelR_ok (snd wr)) more -> all_ws w ->
-     parse (w0 ++ lrel2_text r0 ++ tail2_text more ++ ch 44 :: w ++ ch 36 :: ch 123 :: nm) = Err).
+     parse (w0 ++ lrel2_text r0 ++ tail2_text more ++ ch 44 :: w ++ ch 36 :: ch 123 :: nm ++ x) = Err).
 Proof. exact C04_reject_open_substvar_anywhere. Qed.
 Print Assumptions C04_reject_at_any_position.
 Print Assumptions C04_class_two_names.
